@@ -275,6 +275,7 @@ func checkC16(c *Ctx) {
 			if memo != 1 {
 				c.bad("C16-MEMO", "SexpLazyArg.Force", "memo return", force.Pos(), "Force has no path that returns the memoised value under the forced flag")
 			}
+			c.checkForcedOnlyOnSuccess("C16-MEMO")
 		}
 		// ---- C16-ENV
 		stackF := c.field("SexpLazyArg", "Stack")
@@ -353,4 +354,38 @@ func checkC16(c *Ctx) {
 		})
 		c.check(!reach[force] && dyn == 0, "C16-SUBST", "SubstituteFunction", "does not force", sub.Pos(), "recovering the source expression cannot evaluate it", "substitute can reach Force (or makes a dynamic call): recovering the source would evaluate the argument")
 	}
+}
+
+// checkForcedOnlyOnSuccess: the memo of a lazy argument outlives the evaluation that fills it.
+func (c *Ctx) checkForcedOnlyOnSuccess(rule string) {
+	force := c.fn("SexpLazyArg.Force")
+	forced := c.field("SexpLazyArg", "Forced")
+	if force == nil || forced == nil {
+		c.undecided(rule, "SexpLazyArg.Force", "marked forced only on success", token.NoPos, "Force / Forced not found")
+		return
+	}
+	eachInstr(force, func(b *ssa.BasicBlock, i int, in ssa.Instruction) {
+		st, ok := in.(*ssa.Store)
+		if !ok {
+			return
+		}
+		fa, ok := st.Addr.(*ssa.FieldAddr)
+		if !ok || faField(fa) != forced {
+			return
+		}
+		if k, ok := st.Val.(*ssa.Const); !ok || k.Value == nil || k.Value.String() != "true" {
+			return
+		}
+		okOnly := true
+		reach := reachableAvoiding(b, func(*ssa.BasicBlock) bool { return false })
+		reach[b] = true
+		for _, r := range returnsOf(force) {
+			if reach[r.Block()] && len(r.Results) == 2 && !isNilConst(r.Results[1]) {
+				okOnly = false
+			}
+		}
+		c.check(okOnly, rule, "SexpLazyArg.Force", "marked forced only on success", st.Pos(),
+			"every return that follows the store of the forced flag carries a nil error",
+			"the promise is marked forced on a path that can still return an error: a failed force is memoised as a value, so forcing the same promise again succeeds silently instead of raising the error again or re-evaluating")
+	})
 }
